@@ -1,6 +1,6 @@
 """C09 - pause and resume are transparent (pause twin)."""
 from ovf import workloads
-from ovf.props.common import batches, family_slices, scale, ASSUME_SIM
+from ovf.props.common import batches, family_slices, scale, ASSUME_SIM, positions
 from ovf.props.sweeps import ctl_sweep  # noqa: F401
 from ovf.sim import explore
 from ovf.sim.provider import canon, h64
@@ -123,7 +123,7 @@ def pause_twin(job):
         base = b.script
         C["base_histories"] = C.get("base_histories", 0) + 1
         k = 0
-        for pos in range(1, len(base) + 1):
+        for pos in positions(base):
             for form in range(4):
                 k += 1
                 if h64(seed, pos, form) % job.get("thin", 2):
